@@ -401,3 +401,32 @@ def _reg_header(N):
 HEADER_OBS = {}
 for _n in (0, 1, 2, 3, 4):
     HEADER_OBS[_n] = _reg_header(_n)
+
+
+@obligation("C12/duplicate-declare", profiles=("dev",),
+            desc="parser arm for `declare`: the statement is accepted only if inserting the name into the virtual-signal map "
+                 "found no earlier entry - a second declaration of a name is rejected whatever its expression")
+def duplicate_declare(O):
+    R = rep()
+    m, eng, ts, paths = C09.explore_block(O, 0, None, None, 1, keep=(r"parse_expr$", r"FramedSet::"),
+                                          fixed=("Declare", "Ident", "Equal", "Semi"),
+                                          keep_outcomes=lambda oc: oc in ("return", "cut", "panic"))
+    nok = 0
+    for p in paths:
+        eng.focus(p)
+        if p.outcome != "return":
+            continue
+        rt = eng.tag_of(p.ret, None)
+        r, _ = O.solve(list(p.pc) + [rt == bv64(0)], want_model=False)
+        if r != "sat":
+            continue
+        nok += 1
+        ins = p.calls(r"HashMap::insert$")
+        if len(ins) != 1:
+            R.fail(O, p, "an accepted declare goes through %d plain insertions into the virtual-signal map (other calls: %s)" % (
+                len(ins), [e.norm.split("::")[-1] for e in p.calls(r"HashMap::|Entry::")][:4]), extra=[rt == bv64(0)])
+            continue
+        R.prove(O, p, eng.tag_of(ins[0].ret, None) == bv64(0), "a declare is accepted only if the name was not declared before",
+                extra=[rt == bv64(0)])
+    if nok == 0:
+        O.inconclusive("vacuous: declare is never accepted")
